@@ -195,6 +195,13 @@ func Run(c *hx.Ctx) {
 			dec(proto, b, "random")
 		}
 	}
+	// [c08l9] tars: every length-prefix edge alone and in front of bytes (one Decode)
+	for _, v := range c08l9TarsLens {
+		pre := make([]byte, 4)
+		binary.BigEndian.PutUint32(pre, v)
+		dec("tars", pre, "tars-length")
+		dec("tars", append(append([]byte(nil), pre...), 0x10, 0x01, 0x2c, 0x3c), "tars-length+bytes")
+	}
 	// bolt frames carrying a malformed header block (the block is complete as far as the frame lengths go)
 	for i := 0; i < c.N(200, 3000); i++ {
 		v2 := c.Rng.Bool()
